@@ -116,7 +116,7 @@ for fn, pre, props in (('put', 'l1b_put', ['C02', 'C01', 'C03']), ('get_at', 'l1
         for h in hs:
             fns = {'put': ['lower::Lower::put', 'lower::Lower::put_small', 'lower::Lower::partial_put_huge'],
                    'get_at': ['lower::Lower::get', 'lower::Lower::get_at'], 'get': ['lower::Lower::get']}[fn]
-            quick_orders = {'put': (0, 5, 8, 9, 10), 'get_at': (0, 6, 7, 9, 11), 'get': (0, 3, 8, 9, 10, 11)}[fn]
+            quick_orders = {'put': (0, 5, 9), 'get_at': (0, 7, 9), 'get': (0, 3, 9)}[fn]
             ob(f'lower::{pre}_o{o}_h{h}', props, fns, tier='quick' if (h == quick_h and o in quick_orders) else 'thorough', kind='config-bounded',
                bound=LB % (h, o), assumes=LOWER_ASSUMES, timeout=900, cover=(h == quick_h and o in (0, 9)))
 
@@ -222,7 +222,7 @@ RG_ASSUMES = ['rely: other threads never change a bit this thread owns (follows 
               'std fetch_update loop modelled with one interfering write between load and CAS; compare_exchange_weak never fails spuriously']
 for o in range(10):
     ob(f'bitfield::rg_set_first_zeros_o{o}', ['C01', 'C03', 'C21'], ['bitfield::Bitfield::set_first_zeros'] + (['bitfield::Bitfield::set_first_zero_rows'] if o > 6 else []),
-       tier='quick' if o in (0, 7, 8) else 'thorough', bound=RG_B % o, assumes=RG_ASSUMES, timeout=1200, cover=False)
+       tier='quick' if o in (7, 8) else 'thorough', bound=RG_B % o, assumes=RG_ASSUMES, timeout=1200, cover=False)
 for o in (0, 2, 3, 4, 5, 6, 7, 8, 9):
     ob(f'bitfield::rg_toggle_alloc_o{o}', ['C01', 'C03', 'C21'], ['bitfield::Bitfield::toggle'], tier='quick' if o in (0, 4, 8) else 'thorough', bound=RG_B % o, assumes=RG_ASSUMES, timeout=1200, cover=False)
     ob(f'bitfield::rg_toggle_free_o{o}', ['C01', 'C03', 'C21'], ['bitfield::Bitfield::toggle'], tier='quick' if o in (0, 3, 7) else 'thorough', bound=RG_B % o + '; the freed block is held by this thread',
@@ -246,9 +246,17 @@ ob('llfree::l2_new_establishes_invariant', ['C05', 'C06', 'C04', 'C09'], ['llfre
    bound='every frame count with two trees (last one partial or whole), FreeAll / AllocAll / Recover, any lower free counts; volatile buffers zeroed',
    assumes=['lower::Lower::new by contract (c06_*, c05_recover_*)', 'lower::Lower::stats_at/stats by contract (c04_lower_*)'], cover=False)
 # C10 / C11 completeness, monolithic over the configuration
-ob('llfree::c10_drained_base_order_2c', ['C10'], ['llfree::LLFree::get', 'llfree::LLFree::search_and_reserve', 'llfree::LLFree::steal_global', 'llfree::LLFree::reserve_or_steal', 'trees::Trees::search_best'],
-   tier='thorough', kind='config-bounded', bound=L2B % (1, '') + '; drained (no slot holds a tree), never-Invalid policy, base order, any class / slot choice', assumes=L2_ASSUMES[:2], timeout=3000, cover=False)
 ob('llfree::c10_drained_targeted_2c', ['C10'], ['llfree::LLFree::get', 'llfree::LLFree::get_at', 'llfree::LLFree::steal_global'],
    tier='thorough', kind='config-bounded', bound=L2B % (1, '') + '; drained, never-Invalid policy, every order and target block', assumes=L2_ASSUMES[:2], timeout=3000, cover=False)
-ob('llfree::c11_single_slot_base_order', ['C11'], ['llfree::LLFree::get', 'llfree::LLFree::get_local', 'llfree::LLFree::search_and_reserve', 'trees::Trees::sync'],
-   tier='thorough', kind='config-bounded', bound='2 trees, ONE class with ONE slot (any slot / tree words under I), base order, nothing offline', assumes=L2_ASSUMES[:2], timeout=3000, cover=False)
+
+# (c10_drained_base_order_2c and c11_single_slot_base_order exist as harnesses but exceed 50 min / the memory of this machine: not registered)
+RGL = ('1 tree, any bit states / entries, huge frame 1, order %d; environment may overwrite the accessed row or the counter entry before every atomic access within the rely '
+       '(owned bits kept; counter + units of this thread <= 512, no marker while it holds units)')
+RGL_ASSUMES = RG_ASSUMES + ['rely on the counter: follows from counter == zeros - (reserved + pending units of all threads), which every thread\'s guarantee maintains (DESIGN.md 4.3, paper argument)']
+for o in (0, 3, 6, 7, 8):
+    ob(f'lower::rg_lower_get_at_o{o}_h1', ['C01', 'C03', 'C05', 'C21'], ['lower::Lower::get_at', 'lower::Lower::get', 'bitfield::Bitfield::toggle'], tier='quick' if o in (0,) else 'thorough',
+       kind='config-bounded', bound=RGL % o, assumes=RGL_ASSUMES, timeout=2400, cover=False)
+    ob(f'lower::rg_lower_put_o{o}_h1', ['C01', 'C03', 'C05', 'C21'], ['lower::Lower::put', 'lower::Lower::put_small', 'bitfield::Bitfield::toggle'], tier='quick' if o in (3,) else 'thorough',
+       kind='config-bounded', bound=RGL % o + '; the freed block is held by this thread', assumes=RGL_ASSUMES, timeout=2400, cover=False)
+ob('lower::c03_partial_put_peer_stalled', ['C03'], ['lower::Lower::partial_put_huge', 'util::spin_wait'], kind='config-bounded',
+   bound='the intermediate state of a concurrent split: marker set, bitfield all ones (peer stalled); any frame of the huge frame', cover=False)
